@@ -23,6 +23,8 @@ fn main() {
 		"client_subscription_array_equals_single" => probes::client_subscription_array_equals_single(),
 		"registry_atomicity" => probes::registry_atomicity(),
 		"ws_request_limit_paths" => probes::ws_request_limit_paths(),
+		"client_reply_overtakes_send" => probes::client_reply_overtakes_send(),
+		"http_client_batch_positional" => probes::http_client_batch_positional(),
 		_ => json!({"probe": name, "error": "unknown probe"}),
 	};
 	println!("{}", res);
